@@ -186,14 +186,18 @@ func (h *Sources) Walk(pos int) {
 		h.hpos = 0
 	}
 
+	walking := h.hpos > 0
 	h.hpos += pos
 
 	switch {
-	case h.hpos < -1:
-		h.hpos = -1
-		return
-	case h.hpos == 0:
+	case h.hpos <= 0 && walking:
+		// Moved down past the most recent entry:
+		// back to the line that was being edited.
 		h.restoreLineBuffer()
+		return
+	case h.hpos <= 0:
+		// Already on the line being edited.
+		h.hpos = -1
 		return
 	case h.hpos > history.Len():
 		h.hpos = history.Len()
